@@ -115,8 +115,14 @@ def ref_named(rf, lab):
     return set(lab.name(v) for v in rf.vars), out
 
 
-def cmp_named(obs, exp, tol=1e-9):
+import os as _os
+
+DEFAULT_TOL = float(_os.environ.get("VERIF_TOL", "1e-9"))
+
+
+def cmp_named(obs, exp, tol=None):
     """obs/exp: (varset, table).  returns None if equal else a short description"""
+    tol = DEFAULT_TOL if tol is None else tol
     ov, ot = obs
     ev, et = exp
     if ov != ev:
